@@ -13,3 +13,14 @@ def check(A):
     R.jsonp_rule(A, 'C19')
     R.constructor_rules(A, 'C19', fresh_rule='C19')
     R.driver_response_rules(A, 'C19')
+    for fl in FLAVOURS:
+        # the JSONP index of the handshake request reaches _ok together with the cookie header
+        R.handle_connect_rules(A, fl, 'C19')
+    # what Payload.encode concatenates is the text form of every packet, whatever was cached
+    # on it before (rule shared with C01)
+    from . import C01
+    import copy
+    msg = A.model.const_value(A.model.module('packet'), 'MESSAGE')
+    sub = copy.copy(A)
+    sub.obligations = []
+    C01.encode_cases(A, C01.constructor_cases(sub, msg), prefix='C19')
